@@ -171,6 +171,16 @@ CHECKS = {
              "iff reading s yields exactly that symbol and Keyword(s) iff reading ':'+s yields that keyword; for every "
              "delimiter/content pair String(s, brackets=d) must succeed iff #[d[s]d] reads back as s.",
         note="The reader side is the real reader, compared with HyReader's verdict on every text (C18 binding)."),
+    "C27": dict(
+        engine="models", level="model_checking", design="5.5, 6/C27",
+        technique="TLC computes the documented form skeleton (HyReprValues) for generated value shapes incl. self "
+                  "references and checks Unform(Form(v)) = v; real hy.repr output is read, compared with the skeleton, "
+                  "evaluated and compared with the value",
+        text="Shapes over all documented container / constructor types are given to TLC, which derives the form hy.repr "
+             "must print (constructor heads, nesting, placeholders) and checks the form evaluates back to the shape; the "
+             "harness fills atoms (inf, nan, -0.0, huge ints, awkward strings and bytes), prints with the real hy.repr "
+             "under a watchdog, reads the text, compares structure, evaluates it and compares value and type.",
+        note="Atom formatting is delegated to CPython (uninterpreted in the spec), as stated in DESIGN section 7."),
     "C28": dict(
         engine="models", level="model_checking", design="5.5, 6/C28",
         technique="TLC explores HyReprState (hy.repr's _quoting/_seen machine) over all small object graphs and call "
